@@ -35,6 +35,14 @@ CLAIMS = {
         "Induction over operations covers every history; a bounded native run compares random histories with a plain list.",
    note="trusted: pyvc engine (heap/list model), stdlib Sequence.__iter__ semantics for symbolic length, filter-comprehension library spec; set_order assumes distinct positions hold distinct frames",
    technique="contract-based deductive verification (Hoare triples over a symbolic heap and symbolic-length list, loop invariants for extend/set_order); bounded native replay"),
+ 'C09': dict(cat='proof', ref='DESIGN.md 2/C09',
+   text="quantize_real's pointwise formula, signed b-bit range (b=2..8), integer type, monotonicity (with an affine-map lemma) and the "
+        "zero-variance path; estimate_stats over at most N leading samples (Sum-term extensionality); the refresh schedule of "
+        "RealQuantizer.quantize as a two-state invariant with ghost call counter (refresh exactly on calls 0,p,2p,.. / first call only); "
+        "ComplexQuantizer = two independent real quantisers for all custom_stds forms - all discharged from the real source for arbitrary "
+        "array length and state. Bounded native probe covers float behaviour incl. constant arrays.",
+   note="trusted: pyvc engine, numpy axioms (around half-even, clip, mean/std as Sum terms, ptp); reals for floats (zero-variance in floats is bounded-probe only)",
+   technique="contract-based deductive verification (AST->z3/cvc5 VCs, two-state class invariant with ghost state, lemmas); bounded native replay"),
 }
 NA_REASON = "not yet built in this session (see DESIGN.md build order)"
 
